@@ -339,7 +339,18 @@ type c10Obs struct {
 func c10MapOf(pairs [][]interface{}) map[string]interface{} {
 	m := map[string]interface{}{}
 	for _, p := range pairs {
-		m[fmt.Sprint(p[0])] = p[1]
+		v := p[1]
+		switch x := v.(type) { // values of a replayed (JSON-decoded) case
+		case json.Number:
+			v = c10Int(x)
+		case float64:
+			v = int(x)
+		case string:
+			if t, err := time.Parse(time.RFC3339, x); err == nil {
+				v = t
+			}
+		}
+		m[fmt.Sprint(p[0])] = v
 	}
 	return m
 }
@@ -410,7 +421,7 @@ func c10Exec(db *gorm.DB, typ reflect.Type, c *c10Case, extra func(*gorm.DB) *go
 		for _, r := range c.MapRows {
 			ms = append(ms, c10MapOf(r))
 		}
-		return tx.Model(reflect.New(typ).Interface()).Create(ms)
+		return tx.Model(reflect.New(typ).Interface()).Create(&ms) // pointer: a plain []map value makes gorm.Scan panic on RETURNING dialects (side finding, not C10)
 	case "upsert_all":
 		return tx.Clauses(clause.OnConflict{UpdateAll: true}).Create(row(0).Interface())
 	case "upsert_slice":
@@ -626,10 +637,11 @@ func c10GenMap(rng *rand.Rand, sch *schema.Schema, s c10Sch, wild bool, single b
 		if wild && rng.Intn(10) == 0 {
 			key, kind = "zzz", "unknown"
 		}
-		if used[key] {
-			continue
+		if used[key] || (!wild && used[pf.Name]) {
+			continue // (e2e: one key per field — which of two spellings of one field wins is not specified)
 		}
 		used[key] = true
+		used[pf.Name] = true
 		var val interface{}
 		vk := "non-zero"
 		switch rng.Intn(4) {
@@ -637,6 +649,8 @@ func c10GenMap(rng *rand.Rand, sch *schema.Schema, s c10Sch, wild bool, single b
 			vk = "zero"
 			if f.Kind == "str" {
 				val = ""
+			} else if f.Kind == "time" {
+				val = time.Time{}
 			} else {
 				val = 0
 			}
